@@ -78,12 +78,12 @@ def crestore (c : Cell) : Nat × Cell :=
      | _, _ => c
    else c)
 
-def cemit (id : String) (l : Nat) (t : Int) (c : Cell) : Cell :=
+def cemit (id : String) (l : Nat) (t : Payload) (c : Cell) : Cell :=
   let e : ES := { id := id, level := l, time := t }
   { c with ma := some e, da := if l = 0 then none else some e, ta := l,
            mn := some e, dn := if l = 0 then none else some e, tn := l }
 
-def cpoint (cfg : Cfg) (id : String) (c : Cell) (l : Nat) (t : Int) : Cell :=
+def cpoint (cfg : Cfg) (id : String) (c : Cell) (l : Nat) (t : Payload) : Cell :=
   let r := match c.g with
     | some x => (x, c)
     | none => crestore c
@@ -99,12 +99,12 @@ def crun (cfg : Cfg) (id : String) (c : Cell) (ops : List NOp) : Cell := ops.fol
 
 @[simp] theorem svcCell_g (Ta Tn : String) (s : Svc) (id : String) (g : Option Nat) : (svcCell Ta Tn s id g).g = g := rfl
 
-theorem cpoint_none (cfg : Cfg) (id : String) (c : Cell) (l : Nat) (t : Int) (h : c.g = none) :
+theorem cpoint_none (cfg : Cfg) (id : String) (c : Cell) (l : Nat) (t : Payload) (h : c.g = none) :
     cpoint cfg id c l t = if emits cfg (crestore c).1 l then cemit id l t { (crestore c).2 with g := some l }
       else { (crestore c).2 with g := some l } := by
   simp only [cpoint, h]
 
-theorem cpoint_some (cfg : Cfg) (id : String) (c : Cell) (l : Nat) (t : Int) (x : Nat) (h : c.g = some x) :
+theorem cpoint_some (cfg : Cfg) (id : String) (c : Cell) (l : Nat) (t : Payload) (x : Nat) (h : c.g = some x) :
     cpoint cfg id c l t = if emits cfg x l then cemit id l t { c with g := some l } else { c with g := some l } := by
   simp only [cpoint, h]
 
@@ -215,7 +215,7 @@ theorem lastTold_snoc (told : List Ev) (e : Ev) (T id : String) :
 
 /-- `handleEvent` of a two-topic node (Collect on the anonymous topic, then on the named topic), on cells -/
 theorem emit_sim (cfg : Cfg) (Ta Tn : String) (ha : cfg.anon = some Ta) (hn : cfg.named = some Tn)
-    (hne : Ta ≠ Tn) (s : Svc) (h : SCoh Ta Tn s) (i : String) (l : Nat) (t : Int) :
+    (hne : Ta ≠ Tn) (s : Svc) (h : SCoh Ta Tn s) (i : String) (l : Nat) (t : Payload) :
     SCoh Ta Tn (runMicros s (emitMicros cfg { id := i, level := l, time := t })) ∧
     (∀ id g', svcCell Ta Tn (runMicros s (emitMicros cfg { id := i, level := l, time := t })) id g' =
       if id = i then cemit i l t (svcCell Ta Tn s i g') else svcCell Ta Tn s id g') := by
@@ -277,7 +277,7 @@ theorem plan_shape_run (w : World) (fix em : List Micro) (i : String) (l : Nat) 
   rw [nrunMicros_append, nrunMicros_append, nrunMicros_svc, nrunMicros_svc]
   simp [nrunMicros, nexec]
 
-theorem plan_shape (cfg : Cfg) (w : World) (i : String) (l : Nat) (t : Int) :
+theorem plan_shape (cfg : Cfg) (w : World) (i : String) (l : Nat) (t : Payload) :
     nplan cfg w (.point i l t) =
       (match w.groups i with | some _ => [] | none => (restoreEvent cfg w.svc i).2).map .svc ++
       ([.setGroup i l] ++
@@ -427,7 +427,7 @@ theorem quiet_restore (cfg : Cfg) (Lv : Nat) (c : Cell) (h : Quiet cfg Lv c) : c
     | none => simp [optLevel] at h1; exact absurd h1.symm h4
     | some a => simp [crestore, optLevel] at h1 ⊢; simp [h1]
 
-theorem cemit_norm (cfg : Cfg) (id : String) (l : Nat) (t : Int) (c : Cell) (hg : c.g = some l) :
+theorem cemit_norm (cfg : Cfg) (id : String) (l : Nat) (t : Payload) (c : Cell) (hg : c.g = some l) :
     Norm cfg l (cemit id l t c) := by
   refine ⟨rfl, ?_, rfl, ?_, rfl, rfl, ?_⟩
   · by_cases hl : l = 0 <;> simp [cemit, optLevel, hl]
@@ -437,7 +437,7 @@ theorem cemit_norm (cfg : Cfg) (id : String) (l : Nat) (t : Int) (c : Cell) (hg 
     exact Or.inl hx.symm
 
 /-- a point on a QUIET cell: announced → NORMAL at the new level; not announced → only the node's own state moves -/
-theorem quiet_point (cfg : Cfg) (id : String) (Lv : Nat) (c : Cell) (h : Quiet cfg Lv c) (l : Nat) (t : Int) :
+theorem quiet_point (cfg : Cfg) (id : String) (Lv : Nat) (c : Cell) (h : Quiet cfg Lv c) (l : Nat) (t : Payload) :
     (emits cfg (c.g.getD Lv) l = true → Norm cfg l (cpoint cfg id c l t)) ∧
     (emits cfg (c.g.getD Lv) l = false →
       cpoint cfg id c l t = { c with g := some l } ∧ Quiet cfg Lv { c with g := some l }) := by
@@ -475,7 +475,7 @@ theorem quiet_task (cfg : Cfg) (Lv : Nat) (c : Cell) (h : Quiet cfg Lv c) : Quie
 /-- the level rule of the spec on one id -/
 def stepV (noRec : Bool) (v l : Nat) : Nat := if l = 0 ∧ noRec = true then v else l
 
-theorem norm_point (cfg : Cfg) (id : String) (v : Nat) (c : Cell) (h : Norm cfg v c) (l : Nat) (t : Int) :
+theorem norm_point (cfg : Cfg) (id : String) (v : Nat) (c : Cell) (h : Norm cfg v c) (l : Nat) (t : Payload) :
     Norm cfg (stepV cfg.noRec v l) (cpoint cfg id c l t) := by
   obtain ⟨h1, h2⟩ := quiet_point cfg id v c h.quiet l t
   by_cases hem : emits cfg (c.g.getD v) l = true
@@ -688,7 +688,7 @@ theorem fresh_final (cfg : Cfg) (id : String) (c : Cell) (h : Fresh c) (ops : Li
 
 def emptyCell : Cell := { ma := none, da := none, mn := none, dn := none, ta := 0, tn := 0, g := none }
 
-theorem cpoint_g (cfg : Cfg) (id : String) (c : Cell) (l : Nat) (t : Int) : (cpoint cfg id c l t).g = some l := by
+theorem cpoint_g (cfg : Cfg) (id : String) (c : Cell) (l : Nat) (t : Payload) : (cpoint cfg id c l t).g = some l := by
   cases hg : c.g with
   | some x => rw [cpoint_some cfg id c l t x hg]; split <;> rfl
   | none => rw [cpoint_none cfg id c l t hg]; split <;> rfl
@@ -709,7 +709,7 @@ theorem crun_g (cfg : Cfg) (id : String) (c : Cell) (ops : List NOp) :
     | taskRestart => rfl
 
 theorem faithful_point (cfg : Cfg) (id : String) (v : Nat) (c : Cell) (h : Norm cfg v c)
-    (fa : Faithful c.da) (fn : Faithful c.dn) (l : Nat) (t : Int) :
+    (fa : Faithful c.da) (fn : Faithful c.dn) (l : Nat) (t : Payload) :
     Faithful (cpoint cfg id c l t).da ∧ Faithful (cpoint cfg id c l t).dn := by
   have key : ∀ (b : Bool) (c' : Cell), c'.da = c.da → c'.dn = c.dn →
       Faithful (if b = true then cemit id l t c' else c').da ∧ Faithful (if b = true then cemit id l t c' else c').dn := by
@@ -807,7 +807,7 @@ theorem emit_prefix (s : Svc) (hp : s.persist = true) (Ta Tn : String) (e : ES) 
       apply propext; constructor <;> intro h <;> omega
     simp only [this]
 
-theorem updIf_cells (pA pN : Bool) (Ta Tn : String) (hne : Ta ≠ Tn) (i0 : String) (l : Nat) (t : Int) (d : Store)
+theorem updIf_cells (pA pN : Bool) (Ta Tn : String) (hne : Ta ≠ Tn) (i0 : String) (l : Nat) (t : Payload) (d : Store)
     (i : String) :
     (updIf pN Tn { id := i0, level := l, time := t } (updIf pA Ta { id := i0, level := l, time := t } d)) Ta i =
       (if pA = true ∧ i0 = i then (if l = 0 then none else some { id := i0, level := l, time := t }) else d Ta i) ∧
@@ -832,7 +832,7 @@ theorem updIf_wk (p : Bool) (T : String) (e : ES) (d : Store) (h : ∀ T i e', d
       · cases he; rename_i hc; exact hc.2
       · exact h T' i e' he
 
-theorem told_cells (qA qN : Bool) (Ta Tn : String) (hne : Ta ≠ Tn) (i0 : String) (l : Nat) (t : Int) (tl : List Ev)
+theorem told_cells (qA qN : Bool) (Ta Tn : String) (hne : Ta ≠ Tn) (i0 : String) (l : Nat) (t : Payload) (tl : List Ev)
     (i : String) :
     lastTold (tl ++ (if qA = true then [{ topic := Ta, id := i0, level := l, time := t }] else []) ++
         (if qN = true then [{ topic := Tn, id := i0, level := l, time := t }] else [])) Ta i =
@@ -853,7 +853,7 @@ theorem restoreEvent_norm (cfg : Cfg) (Ta Tn : String) (ha : cfg.anon = some Ta)
 /-- **The process dies after `j` sub-steps of a point**: what is on disk and what the handlers were told, in terms
 of how far the point got (`reached`). `b` is a world in which the two topics agree on the id (level `v`). -/
 theorem crash_in_point (cfg : Cfg) (Ta Tn : String) (ha : cfg.anon = some Ta) (hn : cfg.named = some Tn)
-    (b : World) (hp : b.svc.persist = true) (i0 : String) (l : Nat) (t : Int) (v : Nat)
+    (b : World) (hp : b.svc.persist = true) (i0 : String) (l : Nat) (t : Payload) (v : Nat)
     (h1 : optLevel (b.svc.mem Ta i0) = v) (h2 : optLevel (b.svc.mem Tn i0) = v) (j : Nat) :
     let r := reached (emits cfg ((b.groups i0).getD v) l) j
     let e : ES := { id := i0, level := l, time := t }
@@ -1031,7 +1031,7 @@ theorem optLevel_dsk (p : Bool) (l : Nat) (e : ES) (o : Option ES) (he : e.level
   · rfl
 
 theorem crash_point_final (cfg : Cfg) (Ta Tn : String) (ha : cfg.anon = some Ta) (hn : cfg.named = some Tn)
-    (hne : Ta ≠ Tn) (ops : List NOp) (k j : Nat) (i0 : String) (l : Nat) (t : Int)
+    (hne : Ta ≠ Tn) (ops : List NOp) (k j : Nat) (i0 : String) (l : Nat) (t : Payload)
     (hk : ops[k]? = some (.point i0 l t)) (id : String) :
     let L := nodeLevel cfg.noRec (ops.take k) i0
     let r := reached (announces cfg.sco cfg.noRec ((groupLevel (ops.take k) i0).getD L) l) j
@@ -1107,7 +1107,7 @@ theorem crash_point_final (cfg : Cfg) (Ta Tn : String) (ha : cfg.anon = some Ta)
 
 /-- `crash_point_final` in the vocabulary of the specification (`nodeCrashEnd`) -/
 theorem crash_point_end (cfg : Cfg) (Ta Tn : String) (ha : cfg.anon = some Ta) (hn : cfg.named = some Tn)
-    (hne : Ta ≠ Tn) (ops : List NOp) (k j : Nat) (i0 : String) (l : Nat) (t : Int)
+    (hne : Ta ≠ Tn) (ops : List NOp) (k j : Nat) (i0 : String) (l : Nat) (t : Payload)
     (hk : ops[k]? = some (.point i0 l t)) (id : String) :
     ∃ q e, nodeCrashEnd cfg.sco cfg.noRec ops k j = some (i0, q, e) ∧
       (id = i0 → q = true →
